@@ -200,6 +200,24 @@ func analyzeTCP(e *Env, o WireOpts) *WireReport {
 					ws2.User = connUser
 					rep.Segs = append(rep.Segs, ws2)
 					checkSegmentCommon(rep, ws2, o, leSeenFromClient)
+					// C16: TCP fragmentation as configured. Session (open/close)
+					// segments are the ones the fragmentation setting governs: with
+					// it on, a segment goes out in pieces of at most half its length,
+					// whatever the pause between the pieces is (0 included); with it
+					// off, in exactly one write.
+					if pt := o.Pat[d]; pt != nil && pt.GetTcpFragment() != nil && pt.TcpFragment.Enable != nil && !refcodec.IsDataAckType(s.Meta.Type) && len(s.Wire) >= 16 {
+						if pt.GetTcpFragment().GetEnable() {
+							rep.Obs["fragmented_session_segments"]++
+							if n < 2 {
+								rep.add("C16", "tcp-fragment-not-applied", fmt.Sprintf("pair %d %v: %v (%d bytes) left in %d write although tcpFragment.enable=true (maxSleepMs=%d)", id, simnet.Dir(d), s.Meta, len(s.Wire), n, pt.GetTcpFragment().GetMaxSleepMs()))
+							}
+						} else {
+							rep.Obs["unfragmented_session_segments"]++
+							if n != 1 || ws2.Split {
+								rep.add("C16", "tcp-fragment-while-off", fmt.Sprintf("pair %d %v: %v (%d bytes) left in %d writes although tcpFragment.enable=false", id, simnet.Dir(d), s.Meta, len(s.Wire), n))
+							}
+						}
+					}
 				}
 				if err != nil {
 					if !o.Faulty {
@@ -636,8 +654,18 @@ func analyzeUDP(e *Env, o WireOpts) *WireReport {
 					// nextFirst is the smallest number not yet seen on the wire
 					// (data or close message). A first transmission above it
 					// leaves a hole below: a skipped or overtaken number.
+					// Once the flow's close message has been on the wire, the side
+					// has discarded its unsent data (closeWithError empties the send
+					// queue after sending the close request); a Write racing that
+					// Close can still push a later fragment out, with the discarded
+					// numbers missing below it. Those numbers were assigned in order
+					// and are simply never sent: counted, not a violation.
 					if m.Seq > nextFirst[fk] {
-						rep.add("C13", "seq-gap-or-reorder-at-first-transmission", fmt.Sprintf("session %d %v: first transmission of seq %d while seq %d has never been transmitted", m.SessionID, dir, m.Seq, nextFirst[fk]))
+						if hasFirstClose[fk] {
+							rep.Obs["holes_below_data_sent_after_close_message"]++
+						} else {
+							rep.add("C13", "seq-gap-or-reorder-at-first-transmission", fmt.Sprintf("session %d %v: first transmission of seq %d while seq %d has never been transmitted (no close message of this side on the wire so far)", m.SessionID, dir, m.Seq, nextFirst[fk]))
+						}
 					}
 					if seenSeq[fk] == nil {
 						seenSeq[fk] = map[uint32]bool{}
